@@ -1839,7 +1839,10 @@ impl<'arena> PrettyFormatter<'arena> {
 
     fn scoped_telescope(&self, root: TermId, form: ScopedForm) -> ScopeTelescope<CoPatId> {
         let layers = std::iter::successors(Some(root), |current| {
-            let (parameter, nested) = form.split(&self.arena.terms[current])?;
+            let (parameter, body) = form.split(&self.arena.terms[current])?;
+            // A singleton group that is elided anyway does not separate two scopes:
+            // printed without it they would merge on the next formatting.
+            let nested = self.transparent_term_group(body);
             form.split(&self.arena.terms[&nested])?;
             self.scope_boundary_allows_merging(parameter, nested).then_some(nested)
         })
@@ -1987,6 +1990,19 @@ impl<'arena> PrettyFormatter<'arena> {
                 }
                 | _ => return None,
             }
+        }
+    }
+
+    fn transparent_term_group(&self, term: TermId) -> TermId {
+        if let Term::Paren(Paren(terms)) = &self.arena.terms[&term]
+            && let [inner] = terms.as_slice()
+            && self.should_elide_parentheses(term.into(), (*inner).into())
+            && self.arena.trivia.leading_comments(term.into()).is_empty()
+            && self.arena.trivia.leading_comments((*inner).into()).is_empty()
+        {
+            self.transparent_term_group(*inner)
+        } else {
+            term
         }
     }
 
